@@ -460,6 +460,8 @@ def _replay_body(emg3d, cex, wit, mode, temcalls):
                                         "the band is not zero")
                     except ValueError:
                         pass
+        except ValueError:
+            pass          # loud failure (too few points for the spline)
         except Exception as e:    # noqa
             msgs.append(f"interpolate raised {e!r}"[:150])
     return bool(msgs), (f"real Fourier bookkeeping with freq={wit['freq']}, "
